@@ -28,7 +28,8 @@ ExtEmptyComponentPaths == {"components/schemas/Err", "components/schemas/Item", 
                            "components/callbacks/Cb", "components/links/L", "components/requestBodies/Body", "components/securitySchemes/key",
                            "components/securitySchemes/oauth"}
 SparseNullEntries == {"paths//u/get/responses/200/content/application/json/examples/E", "components/examples/Z", "components/links/Z"}
-IsKnownNilPoint(m) == (m.op = "ref_ext_empty" /\ m.path \in ExtEmptyComponentPaths) \/ (m.op \in RefOpsF /\ m.path \in UnresolvedRefPaths) \/ <<m.op, m.path>> \in KnownNullPoints
+IsKnownNilPoint(m) == (m.op = "schema_properties_null_entry")       \* a null entry of a properties map (any schema object)
+                      \/ (m.op = "ref_ext_empty" /\ m.path \in ExtEmptyComponentPaths) \/ (m.op \in RefOpsF /\ m.path \in UnresolvedRefPaths) \/ <<m.op, m.path>> \in KnownNullPoints
 
 Panicked(obs) == {s \in DOMAIN obs : obs[s] = "panic"}
 
